@@ -223,11 +223,26 @@ func (s *JavaIdentifierListener) EnterExpression(ctx *parser.ExpressionContext) 
 		statementCtx := ctx.GetParent().(*parser.StatementContext)
 		firstChild := statementCtx.GetChild(0).(antlr.ParseTree).GetText()
 		if strings.ToLower(firstChild) == "return" {
-			if strings.Contains(ctx.GetText(), "null") {
+			if strings.Contains(ctx.GetText(), "null") && !isBooleanExpression(ctx) {
 				currentMethod.IsReturnNull = true
 			}
 		}
 	}
+}
+
+// isBooleanExpression: a comparison, a logical connective or a negation yields a boolean, so a return of
+// `x == null` mentions the null literal without returning it
+func isBooleanExpression(ctx *parser.ExpressionContext) bool {
+	if ctx.GetPrefix() != nil && ctx.GetPrefix().GetText() == "!" {
+		return true
+	}
+	if ctx.GetBop() != nil {
+		switch ctx.GetBop().GetText() {
+		case "==", "!=", "&&", "||", "<", ">", "<=", ">=", "instanceof":
+			return true
+		}
+	}
+	return false
 }
 
 func (s *JavaIdentifierListener) GetNodes() []core_domain.CodeDataStruct {
